@@ -173,7 +173,9 @@ def _cell(cx, rule, key, f, what):
             errs = any(st["k"] == "assign" and st["rv"]["k"] == "agg" and st["rv"].get("variant") == "Err" for x in rb for st in b.stmts(x)) or bool(b.error_blocks() & rb) \
                 or any(call_is(b.term(x), r"Error::new$|Into<.*Error>>::into$|FormatError::new") for x in rb)
             short_read = what.endswith("::read") and any(st["k"] == "assign" and st["rv"]["k"] == "agg" and st["rv"].get("variant") == "Ok" and op_const_val(st["rv"]["fields"][0]) == 0 for x in rb for st in b.stmts(x))
-            if not touches and (errs or short_read) and all(b.dominates(g, i) for i, _ in acc):
+            if not touches and (errs or short_read) and (all(b.dominates(g, i) for i, _ in acc) or not ({i for i, _ in acc} & b.explore(avoid={g})[0])):
+                # (second form: path-sensitive domination -- no feasible path reaches an access without passing the guard,
+                #  e.g. when the guard sits in a first stage that returns a strategy the second stage matches on)
                 ok = True
                 covering = b.ln(g)
     cx.ob(rule, key, ok, f, "%s: every direct access (%s) is dominated by a length comparison whose failing arm returns an error (guard at line %s; candidate guards %s)" % (
